@@ -1,5 +1,6 @@
 import PydjinniModel.Drv.C05
 import PydjinniModel.Props.C11Closed
+import PydjinniModel.Props.C05Program
 /-! Driver handlers for property C11: `handle op request` answers one JSON request.
 
 `c11.closed`: is the program of a front request (files in finish order) dependency-closed in the sense of
@@ -25,9 +26,40 @@ def closed (req : Json) : Except String Json := do
       ("ordered", ordered.length), ("whole", whole.length),
       ("same", ordered.map (fun d => (d.cls, d.rule, d.file, d.pos.sl, d.pos.sc)) == whole.map (fun d => (d.cls, d.rule, d.file, d.pos.sl, d.pos.sc)))])
 
+/-- the (file, spelling) pairs reachable through `@import` lines — a *candidate* certificate for `progChecks`
+    (`front_of_progChecks` holds for any node list that passes the check) -/
+def reachNodes (cfg : Cfg) (fs : FS) : Nat → List (APath × APath) → List (APath × APath) → List (APath × APath)
+  | 0, _, seen => seen
+  | _, [], seen => seen
+  | fuel + 1, n :: todo, seen =>
+    if seen.contains n then reachNodes cfg fs fuel todo seen else
+    let next := match fs.get n.1 with
+      | some (.idl text) =>
+        match parseText text with
+        | some f => f.loads.filterMap (fun l => (findFile cfg fs n.2 (filepathText l.lit)).map (fun (c, p) => (p, c.path)))
+        | none => []
+      | _ => []
+    reachNodes cfg fs fuel (todo ++ next) (seen ++ [n])
+
+/-- `c11.hyp`: do the hypotheses of `front_eq_violationsOrdered` hold for this request (decided by evaluation:
+    `front_of_progChecks`)? If so the model's outcome *is* the ordered specification, and for closed programs
+    `front_split_invariance` applies. -/
+def hyp (req : Json) : Except String Json := do
+  let cfg ← req.getObjVal? "cfg" >>= decodeCfg
+  let files ← req.getObjValAs? (Array Json) "files"
+  let fl ← files.toList.mapM decodeFile
+  let bs ← req.getObjValAs? (Array Json) "builtins"
+  let builtins ← bs.toList.mapM decodeDef
+  let root ← req.getObjValAs? String "root"
+  let r := (parsePath root).2
+  let fs : FS := { files := fl }
+  let nodes := reachNodes cfg fs (4 * fl.length * fl.length + 8) [(normPath r, r)] []
+  pure (Json.mkObj [("holds", progChecks cfg fs builtins r nodes), ("nodes", nodes.length)])
+
 def handle (op : String) (req : Json) : Except String Json :=
   match op with
   | "c11.closed" => closed req
+  | "c11.hyp" => hyp req
   | _ => throw s!"unknown op {op}"
 
 end Pydjinni.Drv.C11
